@@ -109,7 +109,7 @@ theorem shape_exec (v : Variant) (s : St) (t : Nat) (i : Instr) (rest : List Ins
   intro u
   cases i
   case closeSwap =>
-    simp only [exec]
+    simp only [exec, flushBody]
     split
     all_goals
       simp only [setProg_prog]
@@ -123,7 +123,7 @@ theorem shape_exec (v : Variant) (s : St) (t : Nat) (i : Instr) (rest : List Ins
       · exact hall u
   case delByTag tag rep caps =>
     have hno := h2 rfl
-    simp only [exec]
+    simp only [exec, flushBody]
     split
     · simp only [setProg_prog]
       split
@@ -142,7 +142,7 @@ theorem shape_exec (v : Variant) (s : St) (t : Nat) (i : Instr) (rest : List Ins
         · exact shape_of_noCls _ hno
       · exact hall u
   case idleGo c =>
-    simp only [exec]
+    simp only [exec, flushBody]
     split
     · exact hall u
     · simp only [setProg_prog]
@@ -152,7 +152,7 @@ theorem shape_exec (v : Variant) (s : St) (t : Nat) (i : Instr) (rest : List Ins
         · exact h1
         · exact hall u
   case srv a =>
-    simp only [exec]
+    simp only [exec, flushBody]
     split
     · exact hall u
     · cases a <;> simp only [execSrv]
@@ -175,18 +175,18 @@ theorem shape_exec (v : Variant) (s : St) (t : Nat) (i : Instr) (rest : List Ins
       case close => simp only [setProg_prog]; split <;> first | exact h1 | exact hall u
       case rerr => simp only [setProg_prog]; split <;> first | exact h1 | exact hall u
   case cancelConts c r =>
-    simp only [exec, setProg_prog]
+    simp only [exec, flushBody, setProg_prog]
     split
     · exact h1
     · rw [updCmd_prog, foldl_setCont2_prog]; exact hall u
   case cancelOrphans ks =>
-    simp only [exec, setProg_prog]
+    simp only [exec, flushBody, setProg_prog]
     split
     · exact h1
     · rw [foldl_setCont_prog]; exact hall u
   all_goals
     have hno := h2
-    simp only [exec]
+    simp only [exec, flushBody]
     repeat' split
     all_goals
       first
@@ -292,7 +292,7 @@ theorem exec_prog_other (v : Variant) (s : St) (t u : Nat) (i : Instr) (rest : L
   cases i
   case idleGo c => exact absurd rfl (hi c)
   case srv a =>
-    simp only [exec]
+    simp only [exec, flushBody]
     split
     · rfl
     · cases a <;> simp only [execSrv]
@@ -307,10 +307,10 @@ theorem exec_prog_other (v : Variant) (s : St) (t u : Nat) (i : Instr) (rest : L
       case enabled => rw [setProg_prog, if_neg hu, deliver_prog]
       case close => rw [setProg_prog, if_neg hu]
       case rerr => rw [setProg_prog, if_neg hu]
-  case cancelConts c r => simp only [exec]; rw [setProg_prog, if_neg hu, updCmd_prog, foldl_setCont2_prog]
-  case cancelOrphans ks => simp only [exec]; rw [setProg_prog, if_neg hu, foldl_setCont_prog]
+  case cancelConts c r => simp only [exec, flushBody]; rw [setProg_prog, if_neg hu, updCmd_prog, foldl_setCont2_prog]
+  case cancelOrphans ks => simp only [exec, flushBody]; rw [setProg_prog, if_neg hu, foldl_setCont_prog]
   all_goals
-    simp only [exec]
+    simp only [exec, flushBody]
     repeat' split
     all_goals
       first
@@ -332,11 +332,11 @@ theorem exec_toks_ge (v : Variant) (s : St) (t : Nat) (i : Instr) (rest : List I
         simp [this]
       cases i <;> simp [cls] at hc <;> simp [special] at hb
       case cancelConts d r =>
-        simp only [exec]; rw [setProg_prog, if_pos rfl, hrest]; exact Nat.le_refl _
+        simp only [exec, flushBody]; rw [setProg_prog, if_pos rfl, hrest]; exact Nat.le_refl _
       case cancelOrphans ks =>
-        simp only [exec]; rw [setProg_prog, if_pos rfl, hrest]; exact Nat.le_refl _
+        simp only [exec, flushBody]; rw [setProg_prog, if_pos rfl, hrest]; exact Nat.le_refl _
       all_goals
-        simp only [exec]
+        simp only [exec, flushBody]
         repeat' split
         all_goals
           first
@@ -387,7 +387,7 @@ theorem keep_register {v : Variant} {s : St} (h : Keep s) (t c : Nat) (rest : Li
     (hs : s.prog t = .register c :: rest) (hsh : shape (.register c :: rest) = true) :
     Keep (exec v s t (.register c) rest) := by
   have hno := noCls_tail_of_head hsh rfl
-  simp only [exec]
+  simp only [exec, flushBody]
   split
   · exact h
   · refine keep_transfer h (fun d hd => ?_) (fun d hd => Or.inl ?_) (fun d u hu => Or.inl ⟨u, ?_⟩) (fun d hd => ?_)
@@ -405,7 +405,7 @@ theorem keep_closeSwap {v : Variant} {s : St} (h : Keep s) (t : Nat) (rest : Lis
     (hs : s.prog t = .closeSwap :: rest) : Keep (exec v s t .closeSwap rest) := by
   have hrest : ∀ d, toks d (s.prog t) = toks d rest := by
     intro d; rw [hs, toks_cons]; simp [isTok]
-  simp only [exec]
+  simp only [exec, flushBody]
   split
   all_goals
     refine keep_transfer h (fun d hd => Or.inl hd) (fun d hd => Or.inr ⟨t, ?_⟩) (fun d u hu => Or.inl ?_) (fun d hd => hd)
@@ -433,7 +433,7 @@ theorem keep_delByTag {v : Variant} {s : St} (h : Keep s) (t tag : Nat) (rep : R
     split
     · rename_i e; rw [e, h0] at hu; omega
     · exact hu
-  simp only [exec]
+  simp only [exec, flushBody]
   split
   · refine keep_transfer h (fun d hd => Or.inl hd) (fun d hd => Or.inl hd) (fun d u hu => Or.inl ⟨u, ?_⟩) (fun d hd => hd)
     simp only [setProg_prog]; exact htokother _ d u hu
@@ -449,7 +449,7 @@ theorem keep_delByTag {v : Variant} {s : St} (h : Keep s) (t tag : Nat) (rep : R
 
 theorem keep_loadDone {v : Variant} {s : St} (h : Keep s) (t c : Nat) (r : Res) (rest : List Instr)
     (hs : s.prog t = .loadDone c r :: rest) : Keep (exec v s t (.loadDone c r) rest) := by
-  simp only [exec]
+  simp only [exec, flushBody]
   refine keep_transfer h (fun d hd => Or.inl hd) (fun d hd => Or.inl hd) (fun d u hu => Or.inl ⟨u, ?_⟩) (fun d hd => hd)
   simp only [setProg_prog]
   split
@@ -458,7 +458,7 @@ theorem keep_loadDone {v : Variant} {s : St} (h : Keep s) (t c : Nat) (r : Res) 
 
 theorem keep_send {v : Variant} {s : St} (h : Keep s) (t c : Nat) (r : Res) (init : Bool) (rest : List Instr)
     (hs : s.prog t = .send c r init :: rest) : Keep (exec v s t (.send c r init) rest) := by
-  simp only [exec]
+  simp only [exec, flushBody]
   split
   · exact h
   · split
@@ -484,7 +484,7 @@ theorem keep_idleGo {v : Variant} {s : St} (h : Keep s) (t c : Nat) (rest : List
     (hs : s.prog t = .idleGo c :: rest) (hsh : shape (.idleGo c :: rest) = true) :
     Keep (exec v s t (.idleGo c) rest) := by
   have hno := noCls_tail_of_head hsh rfl
-  simp only [exec]
+  simp only [exec, flushBody]
   split
   · exact h
   rename_i hg
@@ -512,7 +512,7 @@ theorem keep_srv {v : Variant} {s : St} (h : Keep s) (t : Nat) (a : SrvAct) (res
     by_cases e : u = t
     · rw [e, h0] at hu; omega
     · rw [hpr u e]; exact hu
-  simp only [exec]
+  simp only [exec, flushBody]
   split
   · exact h
   · cases a <;> simp only [execSrv]
